@@ -467,7 +467,38 @@ def c10(tier):
                        assumptions=["the grid values are those of the property's quantifier", "format lists come from the library's own enumeration commands"])
 
 
-REGISTRY = {"C01": c01, "C07": c07, "C15": c15, "C10": c10, "C11": c11, "C19": c19, "C14": c14, "C16": c16, "C04": c04, "C05": c05, "C06": c06, "C08": c08, "C09": c09}
+def c13(tier):
+    t0 = time.time()
+    exe = vlib.build()
+    rng = random.Random(vlib.SEED)
+    S = scen.Script()
+    conts = [(0x10002, 1), (0x10006, 2), (0x220002, 1), (0x20002, 2), (0x20006, 1), (0x180002, 1), (0x180006, 2), (0x130002, 1)]
+    counts = [0, 1, 2, 19, 20, 21, 30, 31, 32, 33, 45] if tier == "quick" else list(range(0, 50)) + [60, 100, 200]
+    ids4 = [b"ABCD", b"ABCD", b"wxyz", b"Q1_2"]
+    pays = [0, 1, 2, 3, 4, 5, 7, 64, 1001] if tier == "quick" else [0, 1, 2, 3, 4, 5, 6, 7, 8, 63, 64, 65, 1001, 4096, 4097, 65536]
+    for fmt, ch in conts:
+        for n in counts:
+            gen_env.c13_scenario(S, fmt, ch, RATE, rng, n, ids4, pays[rng.randint(0, 3):] + pays[:3], late=(n % 3 == 1))
+        # short identifiers (1-3 characters), the same id everywhere, one big payload
+        gen_env.c13_scenario(S, fmt, ch, RATE, rng, 3, [b"XY", b"a", b"abc"], [4, 5], cfg={"short": 1})
+        gen_env.c13_scenario(S, fmt, ch, RATE, rng, 25, [b"SAME"], [2, 9])
+        gen_env.c13_scenario(S, fmt, ch, RATE, rng, 2, [b"BIG1", b"BIG2"], [20000 if tier == "quick" else 65536, 3], shortbuf=False)
+    # containers that cannot carry chunks: refused, audio untouched
+    for fmt, ch in [(0x30002, 1), (0x40002, 1), (0xb0002, 1), (0x70002, 1)]:
+        gen_env.c13_scenario(S, fmt, ch, RATE, rng, 2, ids4, pays)
+    mcs = [gen_chunks_mc(tier)]
+    return core_check("C13", tier, mcs, S.lines, "DESIGN.md section 6 C13",
+                      "WAV, WAVEX, RF64, AIFF, CAF (int and float encodings) x chunk counts %s (crossing the capacity steps 20, 31, 47 ...) x ids (4 characters incl. duplicates, all identical, 1-3 characters) x payload lengths %s x a chunk set after the audio; re-open: full iteration, iteration by id (incl. an absent id), get_data with short buffers (guard bands), next after last; audio and a title string read back; hook reports used/capacity after every set (SetChunkOK)" % (counts if len(counts) < 20 else "0..49,60,100,200", pays),
+                      t0)
+
+
+def gen_chunks_mc(tier):
+    """bounded model of the chunk table growth (spec/MC_chunks.tla)"""
+    cfgname = gen_core.write_cfg("MC_chunks_%s.cfg" % tier[0], dict(MaxChunks=40 if tier == "quick" else 300, InitCap=20), ["TypeOK", "ChunkCap", "VisitOnce"], constraint=None, extra="CHECK_DEADLOCK FALSE\n")
+    return vlib.model_check("MC_chunks.tla", cfgname, workers=4, timeout=600)
+
+
+REGISTRY = {"C01": c01, "C07": c07, "C15": c15, "C10": c10, "C13": c13, "C11": c11, "C19": c19, "C14": c14, "C16": c16, "C04": c04, "C05": c05, "C06": c06, "C08": c08, "C09": c09}
 
 
 def replay(prop, path):
